@@ -156,7 +156,7 @@ void World::build(int slot, const NodeCfg &cfg, std::vector<ObjSpec> objs, const
         default:
         integer:
             if (direct) d.Data = (CO_DATA)(w == 1 ? (o.val & 0xFF) : w == 2 ? (o.val & 0xFFFF) : o.val);
-            else { uint8_t *mem = (uint8_t *)zalloc(S, (size_t)w); uint32_t v = o.val; memcpy(mem, &v, (size_t)w); d.Data = (CO_DATA)mem; }
+            else { uint8_t *mem = (o.pgrp >= 0 && (size_t)o.pgrp < S.paraRam.size() && o.poff + (uint32_t)w <= paras[(size_t)o.pgrp].size) ? S.paraRam[(size_t)o.pgrp] + o.poff : (uint8_t *)zalloc(S, (size_t)w); uint32_t v = o.val; memcpy(mem, &v, (size_t)w); d.Data = (CO_DATA)mem; }
             break;
         }
     }
